@@ -246,11 +246,20 @@ def insertById (m : MemberDc) : List MemberDc → List MemberDc
 def sortById (ms : List MemberDc) : List MemberDc := ms.foldl (fun acc m => insertById m acc) []
 
 /-- One entry per ADDRESS (fix D21): a peer that re-joined under a new node id can still be listed
-under its old one; the first member (in id order) at an address stands for it. -/
-def keepFirstAddr : List MemberDc → List Nat → List MemberDc
+under its old one; the first member (in id order) at an address stands for it.  The LOCAL member
+always stands for its own address (fix D30: a stale identity of the local node, possibly in another
+data centre, must not take the local address away from the local data centre). -/
+def keepFirstAddr (self : Nat) : List MemberDc → List Nat → List MemberDc
   | [], _ => []
   | m :: ms, seen =>
-    if seen.contains m.2.1 then keepFirstAddr ms seen else m :: keepFirstAddr ms (m.2.1 :: seen)
+    if m.1 != self && seen.contains m.2.1 then keepFirstAddr self ms seen
+    else m :: keepFirstAddr self ms (m.2.1 :: seen)
+
+/-- The local member's address, if the snapshot lists the local member. -/
+def selfAddr (self : Nat) (ms : List MemberDc) : List Nat :=
+  match ms.find? (fun m => m.1 == self) with
+  | some m => [m.2.1]
+  | none => []
 
 def insertNat (x : Nat) : List Nat → List Nat
   | [] => [x]
@@ -258,8 +267,20 @@ def insertNat (x : Nat) : List Nat → List Nat
 
 /-- The data-centre map handed to the selector: `BTreeMap<dc, Vec<addr>>`, addresses pushed in
 node-id order (the local node included). -/
-def dcLayout (ms : List MemberDc) : List (Nat × List Nat) :=
-  let kept := keepFirstAddr (sortById ms) []
+def dcLayout (self : Nat) (ms : List MemberDc) : List (Nat × List Nat) :=
+  let kept := keepFirstAddr self (sortById ms) (selfAddr self (sortById ms))
+  let dcs := (kept.map (·.2.2)).foldr insertNat []
+  dcs.map (fun d => (d, (kept.filter (fun m => m.2.2 == d)).map (·.2.1)))
+
+/-- The wiring between the fixes for D21 and D30: first member per address in id order, the local
+member like any other. -/
+def keepFirstAddrD21 : List MemberDc → List Nat → List MemberDc
+  | [], _ => []
+  | m :: ms, seen =>
+    if seen.contains m.2.1 then keepFirstAddrD21 ms seen else m :: keepFirstAddrD21 ms (m.2.1 :: seen)
+
+def dcLayoutD21 (ms : List MemberDc) : List (Nat × List Nat) :=
+  let kept := keepFirstAddrD21 (sortById ms) []
   let dcs := (kept.map (·.2.2)).foldr insertNat []
   dcs.map (fun d => (d, (kept.filter (fun m => m.2.2 == d)).map (·.2.1)))
 
